@@ -637,6 +637,79 @@ def repeats_case(ctx, tag, k, tmp, fmt):
                     f'{fmt}: non-unique features holding repeats (targets, ints, strings) were {want}, reloaded {got}', {'repeats_case': k, 'format': fmt})
 
 
+FEATURE_NAMES = ['type', 'nil', 'version', 'id', 'idref', 'label', 'schemaLocation', 'eClass_', 'ref']      # (names starting with xml are reserved by XML itself)
+
+
+def named_features_case(ctx, tag, k, tmp, fmt):
+    """features whose names are also words of the document formats (`type`, `nil`, `version`, `id`, `schemaLocation`, ...): an
+    attribute and a plain reference of such a name, on the root and on nested objects written with an explicit type (an
+    instance of a subclass under a containment typed by the abstract superclass) and without one: values and targets come
+    back as saved"""
+    import os
+    from pyecore import ecore as E
+    from pyecore.resources import ResourceSet, URI
+    from pyecore.resources.json import JsonResource
+    rng = common.sub_rng(ctx.seed, tag, 'named-features', k, fmt)
+    an, rn = rng.sample(FEATURE_NAMES, 2)
+    pk = E.EPackage('nf', f'http://verif/{tag}/nf{k}', 'nf')
+    Base = E.EClass('Base', abstract=True)
+    Sub, Other, T = E.EClass('Sub', superclass=(Base,)), E.EClass('Other', superclass=(Base,)), E.EClass('T')
+    pk.eClassifiers.extend([Base, Sub, Other, T])
+    Base.eStructuralFeatures.extend([E.EAttribute('name', E.EString), E.EReference('items', Base, upper=-1, containment=True),
+                                     E.EReference('exact', Sub, containment=True), E.EReference('targets', T, upper=-1, containment=True)])
+    where = rng.choice([Base, Sub])
+    where.eStructuralFeatures.extend([E.EAttribute(an, E.EString), E.EReference(rn, T, upper=rng.choice([1, -1]))])
+    root = Sub(name='root')
+    ts = [T() for _ in range(3)]
+    root.targets.extend(ts)
+    objs = [root]
+    for i in range(rng.randint(1, 3)):
+        o = Sub(name=f's{i}')
+        rng.choice(objs).items.append(o)
+        objs.append(o)
+    ex = Sub(name='exact')
+    rng.choice(objs).exact = ex
+    objs.append(ex)
+    root.items.append(Other(name='other'))
+    want = {}
+    for o in objs:
+        o.eSet(an, rng.choice(['v', 'nf:Sub', 'true', '']))
+        t = rng.sample(ts, rng.randint(1, 2))
+        if where.findEStructuralFeature(rn).many:
+            o.eGet(rn).extend(t)
+        else:
+            o.eSet(rn, t[0]); t = t[:1]
+        want[o.name] = (o.eGet(an), [ts.index(x) for x in t])
+
+    def rs():
+        r = ResourceSet()
+        r.resource_factory['json'] = lambda uri: JsonResource(uri)
+        r.metamodel_registry[pk.nsURI] = pk
+        return r
+    path = os.path.join(tmp, f'named{k}.{fmt}')
+    res = rs().create_resource(URI(path))
+    res.use_uuid = k % 4 == 3
+    res.append(root)
+    ctx.evaluations += 1
+    ctx.count(f'named-features/{fmt}/{an}+{rn}')
+    ctx.nontriv(('named-features', fmt, k))
+    try:
+        res.save(options=None if k % 2 else ({} if fmt == 'json' else {__import__('pyecore.resources.xmi', fromlist=['XMIOptions']).XMIOptions.OPTION_USE_XMI_TYPE: True}))
+        back = rs().get_resource(URI(path)).contents[0]
+        bts = list(back.targets)
+        got = {}
+        for o in [back] + list(back.eAllContents()):
+            if isinstance(o, Sub) :
+                v = o.eGet(rn)
+                got[o.name] = (o.eGet(an), [next(i for i, x in enumerate(bts) if x is unproxy(y)) for y in (v if hasattr(v, '__iter__') else ([v] if v is not None else []))])
+    except Exception as e:
+        got = f'raised {type(e).__name__}: {str(e)[:80]}'
+    if got != want:
+        ctx.violate({'clause': 'not-isomorphic', 'named_features': True, 'format': fmt},
+                    f'{fmt}: an attribute named `{an}` and a reference named `{rn}` (declared on {where.name}) held {want}, reloaded {got}',
+                    {'named_features_case': k, 'format': fmt})
+
+
 def run(ctx):
     common.use_repo()
     n = 300 if ctx.quick() else 6000
@@ -658,6 +731,7 @@ def run(ctx):
         for k in range(30 if ctx.quick() else 500):
             several_packages_roundtrip(ctx, k, tmp)
             repeats_case(ctx, 'C08', k, tmp, 'xmi')
+            named_features_case(ctx, 'C08', k, tmp, 'xmi')
         for h in range(80 if ctx.quick() else 1500):
             resave_case(ctx, 'C08', h, tmp, 'xmi')
     finally:
